@@ -95,7 +95,8 @@ class TorchBackend(BaseBackend):
         # differ, matching the previous torch.tensor() behavior).
         def f(t, y):
             rhs = func(torch.as_tensor(t, dtype=dtype), torch.as_tensor(y, dtype=dtype), *args)
-            return rhs.numpy()
+            # (a copy: `rhs` is the buffer of the generated function, see BaseBackend._solve_scipy)
+            return rhs.numpy().copy()
 
         # call scipy solver
         results = solve_ivp(fun=f, t_span=(t0, T), y0=y, first_step=dt, **kwargs)
